@@ -41,13 +41,18 @@ def case(draw, tier):
     times0 = [t for t, _ in s0]
     # throw at a subset of the times the thrower will be evaluated (its input ticks), biased to runs and the first cycle
     throw_times = sorted(set(t for t in times0 if draw(st.integers(0, 2)) == 0) | ({times0[0]} if draw(st.booleans()) else set()))
-    self_sched = draw(st.integers(0, 3)) == 0
+    # self-scheduling thrower: re-arms a tagged alarm on every tick, or runs as a periodic timer; its alarm-driven evaluations
+    # throw too (chosen by evaluation ordinal), so a throw can happen in a cycle fired by the node's own alarm
+    self_sched = draw(st.sampled_from([None, None, None, "tick", "every", "every_tag"]))
+    throw_ords = sorted(draw(st.sets(st.integers(0, 8), max_size=3))) if self_sched else []
+    period = draw(st.integers(1, 3))
     second = shape == "node" and draw(st.integers(0, 2)) == 0
     keys = None
     if shape == "map":
         keys = {"live": sorted(draw(st.sets(st.integers(0, 5), min_size=1, max_size=4)))}
         keys["bad"] = [k for k in keys["live"] if draw(st.integers(0, 1)) == 0] or keys["live"][:1]
     return {"end": horizon, "shape": shape, "s0": s0, "s1": s1, "throw_times": throw_times, "self_sched": self_sched,
+            "throw_ords": throw_ords, "period": period,
             "second": second, "fn": draw(st.sampled_from(["sum", "acc", "count"])), "keys": keys}
 
 
@@ -57,7 +62,7 @@ def strategy(tier):
 
 def build(case, faults: bool):
     end = case["end"]
-    thr = {"time": case["throw_times"]} if faults else None
+    thr = {"time": case["throw_times"], "ord": case.get("throw_ords", [])} if faults else None
     stmts = [{"id": "s0", "op": "src", "schema": "TS[int]", "script": case["s0"]},
              {"id": "s1", "op": "src", "schema": "TS[int]", "script": case["s1"]},
              # independent branch
@@ -66,7 +71,9 @@ def build(case, faults: bool):
     subs = {}
     T = {"id": "T", "op": "node", "ins": ["s0"], "out": "TS[int]", "fn": case["fn"], "bias": 3, "log_inputs": False}
     if case["self_sched"]:
-        T["sched"] = {"tick": [["s", "rel", 2, "a"]]}
+        k = case.get("period", 2)
+        T["sched"] = {"tick": [["s", "rel", 2, "a"]]} if case["self_sched"] in (True, "tick") else \
+            {"every": [["s", "rel", k, "a"]]} if case["self_sched"] == "every_tag" else {"every": [["s", "rel", k, None]]}
         T["tags"] = ["a"]
     if thr:
         T["throw"] = thr
@@ -133,7 +140,7 @@ def check(case, ctx) -> Result:
             raise Rejected(f"C15 generator produced a program the tree rejects ({what}): {x.get('error')}")
     if r0.get("error"):
         raise HarnessError(f"C15 fault-free program failed: {r0['error']}")
-    feats = {"shape": case["shape"], "self_sched": case["self_sched"], "second": case["second"]}
+    feats = {"shape": case["shape"], "self_sched": bool(case["self_sched"]), "second": case["second"]}
     if r.get("error"):
         res.violations.append(Viol("captured_error_escaped", f"run() threw although every failing node is captured: {str(r['error'].get('what'))[:300]}", feats))
         return res
